@@ -126,9 +126,31 @@ func runC15(x *simkit.Exec) {
 		qs = append(qs, c15Query{MinT: lo, MaxT: hi, MaxRes: mr})
 	}
 
-	// materialise: write the files once, clone them for the other blocks
+	// materialise: write the files once, clone them for the other blocks. The order in which the store
+	// gets to know the blocks is part of the case: a first group is in the bucket when the store starts
+	// (it adds them in map-iteration order), the others are uploaded and synced one at a time in a drawn
+	// order, and finally one block may disappear again.
 	f := &fixture{ds: ds, bkt: newBucket()}
 	parent := filepath.Join(x.TempDir(), "src")
+	order := make([]int, len(ds.Blocks))
+	for i := range order {
+		order[i] = i
+	}
+	for i := len(order) - 1; i > 0; i-- {
+		j := x.Draw("sync.order", i+1)
+		order[i], order[j] = order[j], order[i]
+	}
+	initial := x.Range("sync.initial", 1, len(order))
+	if x.Bool("sync.allAtOnce", 1, 3) {
+		initial = len(order)
+	}
+	uploadBlock := func(b *blockSpec) error {
+		f.bkt.NameULID(b.ID.String(), b.Canon)
+		if err := block.Upload(context.Background(), log.NewNopLogger(), f.bkt.Inner, b.Dir, metadata.NoneFunc); err != nil {
+			return err
+		}
+		return restampMeta(f.bkt, b.ID)
+	}
 	for i, b := range ds.Blocks {
 		var err error
 		if i == 0 {
@@ -136,17 +158,21 @@ func runC15(x *simkit.Exec) {
 		} else {
 			err = cloneBlock(parent, ds.Blocks[0], b)
 		}
-		if err == nil {
-			f.bkt.NameULID(b.ID.String(), b.Canon)
-			err = block.Upload(context.Background(), log.NewNopLogger(), f.bkt.Inner, b.Dir, metadata.NoneFunc)
-		}
-		if err == nil {
-			err = restampMeta(f.bkt, b.ID)
-		}
 		if err != nil {
 			x.Troublef("fixture: block %s: %v", b.Canon, err)
 			return
 		}
+	}
+	for _, i := range order[:initial] {
+		if err := uploadBlock(ds.Blocks[i]); err != nil {
+			x.Troublef("fixture: block %s: %v", ds.Blocks[i].Canon, err)
+			return
+		}
+	}
+	late := order[initial:]
+	removeIdx := -1
+	if len(ds.Blocks) > 1 && x.Bool("sync.remove", 1, 3) {
+		removeIdx = x.Draw("sync.removeWhich", len(ds.Blocks))
 	}
 	byID := map[string]*blockSpec{}
 	for _, b := range ds.Blocks {
@@ -164,6 +190,28 @@ func runC15(x *simkit.Exec) {
 	x.Nontrivial = len(ds.Blocks) > 1
 
 	runClients(x, f, "c15", cfg, 1, false, nil, func(s *simkit.Sim, g *gateway, ctx context.Context, actor string, c int, begin func(string) bool) {
+		for _, i := range late {
+			if err := uploadBlock(ds.Blocks[i]); err != nil {
+				x.Troublef("c15: late upload: %v", err)
+				return
+			}
+			if !g.syncBlocks() {
+				return
+			}
+		}
+		if removeIdx >= 0 {
+			rb := ds.Blocks[removeIdx]
+			for n := range f.bkt.Inner.Objects() {
+				if strings.HasPrefix(n, rb.ID.String()+"/") {
+					_ = f.bkt.Inner.Delete(ctx, n)
+				}
+			}
+			ds.Blocks = append(append([]*blockSpec{}, ds.Blocks[:removeIdx]...), ds.Blocks[removeIdx+1:]...)
+			if !g.syncBlocks() {
+				return
+			}
+			s.Probe("c15.block_removed_before_queries")
+		}
 		for qi, cq := range qs {
 			if !begin(fmt.Sprintf("q%d", qi)) {
 				return
